@@ -26,9 +26,11 @@ CLAIMED['C14'] = {
     'text': 'Verus proves on the real text of wbtree/map.rs (cut from /repo on every run) that the listed Node::* and WBTreeMap::* functions '
             'preserve the representation invariant wf = BST order + exact cached sizes + weight balance at every node (DELTA=3, GAMMA=2) + '
             'len == node count, and that their result equals the corresponding finite-map operation on the abstract view, for all trees '
-            'and all keys, with termination, overflow- and panic-freedom. Functions outside the proved set (see evidence: '
-            'functions_under_contract vs extraction_drops; iterators are unsafe code) are covered only by the bounded native sweep against '
-            'BTreeMap on clone families, which is reported separately and never counted as proof.',
+            'and all keys, with termination, overflow- and panic-freedom: insert, remove, get, get_mut (prophecy cursor through Rc::make_mut), '
+            'contains_key, len, is_empty, clear, union and difference (callbacks receive (key, left value, right value)), the entry API, all of set.rs, '
+            'shared iteration (Iter::next obeys the iterator laws in every state, iter() yields exactly the entries in increasing key order), '
+            'and the height bound 4^h <= 3^h (n+1). Outside the proved set: IterMut/iter_mut (unsafe raw pointers) and mapped -- covered only '
+            'by the bounded native sweep against BTreeMap on clone families, which is reported separately and never counted as proof.',
     'design_ref': '§5.2, §6 C14',
     'note': 'Assumes the std specifications listed in trusted_base (Rc::make_mut etc.), structural derived Clone, usize 64-bit. '
             'Persistence follows from Verus value semantics of Rc<T> + the make_mut specification. Bounded part: see coverage.bounded_parts.',
@@ -86,16 +88,19 @@ CLAIMED['C04'] = {
             'representation invariant -- every index copy of a relation (each column order, new/old, each diagonal pattern) is the image of its primary '
             'copy, diagonal copies hold exactly the rows satisfying all their equalities, stored components are existing elements, the type sets hold '
             'exactly one representative per class -- is established by new() and preserved by every straight-line mutator (insert_<rel>, equate_<type>, '
-            'new_<type>), that point queries equal membership of the root tuple in the abstract relation (hence agree for equal arguments), and that '
-            'is_dirty is exact. Partial: canonicalize, recompute_model_indices, close, the iterators, evaluation functions, enum case queries and the '
-            'element index are outside Verus and are NOT covered; nothing is claimed "after close()". Programs are sampled (probes), states/arguments/histories universal.',
+            'new_<type>) and by move_new_to_old (against an assumed PrefixTreeN::iter contract), that point queries equal membership of the root tuple '
+            'in the abstract relation (hence agree for equal arguments), and that is_dirty is exact. Partial: canonicalize, recompute_model_indices, '
+            'close/close_until, the iterators, evaluation functions, enum case queries and the element index are outside Verus; the statements about '
+            'the state after close()/close_until() are covered ONLY by the bounded native sweep of the emitted modules (generated harness), reported '
+            'separately. Programs are sampled (4 probe theories), states/arguments/histories universal.',
     'design_ref': '§5.4, §6 C04',
     'note': 'Assumes the runtime contracts (UF, PT units), structural derives of the newtypes, the field naming convention. See evidence.assumptions.',
     'technique': 'contract-based deductive verification (Verus) of emitted code with generated contracts, per probe program',
 }
 CLAIMED['C05']['text'] = CLAIMED['C05']['text'] + ' Unit GEN additionally proves, on the module emitted for each probe theory, that the generated wrappers use it correctly: ' \
     'root_ returns the representative, are_equal_ compares representatives, equate_ merges exactly the two classes (closed form of the generated equivalence), ' \
-    'new_ returns a fresh singleton element, insert_ makes the tuple visible to the point query immediately for every argument of the same classes.'
+    'new_ returns a fresh singleton element, insert_ makes the tuple visible to the point query immediately for every argument of the same classes, '\
+    'define_ returns the existing value or a fresh element (part GEN-define, against an ASSUMED contract of the evaluation function, which is bounded-checked).'
 
 NOT_APPLICABLE = {
     'C01': 'postcondition of the generated close_until loop and rule functions (extern "Rust", runtime iterators, string-templated generator): no function on that path can carry a contract Verus or Kani accepts (DESIGN §6)',
